@@ -674,3 +674,458 @@ theorem pool_refuses (W : World) (p : Pool) (fuel : Nat) (method url : Str) (bod
   simp only [poolUrlopen, poolStep, poolAttempt, hpu, hs, Bool.not_false, Bool.and_self, if_true]
 
 end U3.Manager
+
+namespace U3.Manager
+open U3 U3.Headers U3.Retry
+
+/-! ## the header lines, field by field (`specGetlist f n`: the values of field `n`, in order) -/
+
+theorem specGetlist_congr (f : Flat) (n k : Str) (h : lower n = lower k) :
+    specGetlist f n = specGetlist f k := by
+  unfold specGetlist; rw [h]
+
+theorem specGetlist_filter (f : Flat) (q : Str × Str → Bool) (n : Str)
+    (h : ∀ l ∈ f, lower l.1 = lower n → q l = true) :
+    specGetlist (f.filter q) n = specGetlist f n := by
+  unfold specGetlist
+  rw [List.filter_filter]
+  congr 1
+  apply List.filter_congr
+  intro l hl
+  by_cases hn : lower l.1 = lower n
+  · simp [hn, h l hl hn]
+  · simp [hn]
+
+theorem specGetlist_specAdd (f : Flat) (k v n : Str) :
+    specGetlist (specAdd f k v) n
+      = if lower k = lower n then specGetlist f n ++ [v] else specGetlist f n := by
+  split
+  · rename_i h
+    rw [specGetlist_congr _ n k h.symm, specGetlist_congr f n k h.symm]
+    exact specAdd_getlist f k v
+  · rename_i h
+    have hq : ∀ (g : Flat), specGetlist g n = specGetlist (g.filter (other k)) n := by
+      intro g
+      symm
+      apply specGetlist_filter
+      intro l _ hl
+      simp only [other, Bool.not_eq_true', beq_eq_false_iff_ne, ne_eq]
+      intro hlk
+      exact h (by rw [← hlk, hl])
+    rw [hq (specAdd f k v), specAdd_frame, ← hq f]
+
+theorem specGetlist_nil (n : Str) : specGetlist [] n = [] := rfl
+
+theorem specGetlist_cons (p : Str × Str) (t : Flat) (n : Str) :
+    specGetlist (p :: t) n = if lower p.1 = lower n then p.2 :: specGetlist t n else specGetlist t n := by
+  unfold specGetlist
+  by_cases h : lower p.1 = lower n <;> simp [List.filter_cons, h]
+
+theorem specGetlist_foldl_specAdd (ps : List (Str × Str)) (acc : Flat) (n : Str) :
+    specGetlist (ps.foldl (fun f p => specAdd f p.1 p.2) acc) n = specGetlist acc n ++ specGetlist ps n := by
+  induction ps generalizing acc with
+  | nil => simp [specGetlist_nil]
+  | cons p t ih =>
+    rw [List.foldl_cons, ih, specGetlist_specAdd, specGetlist_cons]
+    split <;> simp
+
+/-- the flat view of `HTTPHeaderDict(headers)` has the same fields with the same values in the same
+order as `headers` itself (a dict with case-variant keys gets them grouped) -/
+theorem Hdrs.toHD_getlist (h : Hdrs) (hw : h.WF) (n : Str) :
+    specGetlist (iteritems h.toHD) n = specGetlist h.items n := by
+  cases h with
+  | dict ps =>
+    simp only [Hdrs.toHD, Hdrs.items]
+    rw [extend_refines ps [] inv_nil, iteritems_nil, specGetlist_foldl_specAdd, specGetlist_nil, List.nil_append]
+  | hd x =>
+    simp only [Hdrs.toHD, Hdrs.items]
+    rw [Headers.copy_eq x hw]
+
+/-- … and is literally the same list for an `HTTPHeaderDict` -/
+theorem Hdrs.toHD_items_hd (x : HD) (hw : Inv x) : iteritems (Hdrs.hd x).toHD = iteritems x := by
+  simp only [Hdrs.toHD]; rw [Headers.copy_eq x hw]
+
+def notContent (l : Str × Str) : Bool := !(contentSpecific.any (fun k => lower l.1 == lower k))
+
+theorem pmc_items (x : HD) (hinv : Inv x) :
+    iteritems (prepareForMethodChange x) = (iteritems x).filter notContent := by
+  unfold prepareForMethodChange
+  rw [foldl_discard]
+  have : x.filter (fun e => !(contentSpecific.any (fun k => e.key == lower k)))
+      = x.filter (fun e => (fun n => !(contentSpecific.any (fun k => lower n == lower k))) e.name) := by
+    apply List.filter_congr
+    intro e he
+    rw [(hinv.2 e he).1]
+  rw [this]
+  exact iteritems_filter_name x (fun n => !(contentSpecific.any (fun k => lower n == lower k)))
+
+theorem notContent_of (l : Str × Str) (n : Str) (hl : lower l.1 = lower n)
+    (hn : lower n ∉ contentSpecific.map lower) : notContent l = true := by
+  simp only [notContent, Bool.not_eq_true', List.any_eq_false, beq_iff_eq]
+  intro k hk hlk
+  exact hn (by rw [← hl, hlk]; exact List.mem_map_of_mem hk)
+
+/-- the 303 rewrite keeps every field that is not content-specific, values and order included -/
+theorem methodChange_getlist (h : Hdrs) (hw : h.WF) (n : Str) (hn : lower n ∉ contentSpecific.map lower) :
+    specGetlist (methodChange h).items n = specGetlist h.items n := by
+  have : (methodChange h).items = iteritems (prepareForMethodChange h.toHD) := rfl
+  rw [this, pmc_items _ (h.toHD_inv hw), specGetlist_filter _ _ n (fun l _ hl => notContent_of l n hl hn),
+    h.toHD_getlist hw]
+
+/-- … and for an `HTTPHeaderDict` the lines are literally the old ones minus the content-specific -/
+theorem methodChange_items_hd (x : HD) (hw : Inv x) :
+    (methodChange (.hd x)).items = (iteritems x).filter notContent := by
+  have : (methodChange (.hd x)).items = iteritems (prepareForMethodChange (Hdrs.hd x).toHD) := rfl
+  rw [this, pmc_items _ ((Hdrs.hd x).toHD_inv hw), Hdrs.toHD_items_hd x hw]
+
+/-- what one redirect decision does to the header lines: the 303 rewrite (if any), then the strip
+loop (if judged cross-host) -/
+def nextLines (R : List Str) (st : Nat) (same : Bool) (H : Hdrs) : List (Str × Str) :=
+  let X := if Gen.Redirect.methodRewriteStatuses.contains st then methodChange H else H
+  if same then X.items else X.items.filter (fun l => !R.contains (lower l.1))
+
+/-- **every other field survives a redirect decision**: a field that is neither in the strip set nor
+(after a 303) content-specific has the same values in the same order afterwards -/
+theorem nextLines_getlist (R : List Str) (st : Nat) (same : Bool) (H : Hdrs) (hw : H.WF) (n : Str)
+    (hR : R.contains (lower n) = false)
+    (hC : Gen.Redirect.methodRewriteStatuses.contains st = true → lower n ∉ contentSpecific.map lower) :
+    specGetlist (nextLines R st same H) n = specGetlist H.items n := by
+  have hX : specGetlist (if Gen.Redirect.methodRewriteStatuses.contains st then methodChange H else H).items n
+      = specGetlist H.items n := by
+    split
+    · rename_i h; exact methodChange_getlist H hw n (hC h)
+    · rfl
+  unfold nextLines
+  dsimp only
+  split
+  · exact hX
+  · rw [specGetlist_filter _ _ n, hX]
+    intro l _ hl
+    rw [hl, hR]; rfl
+
+/-- without a 303 the lines are literally the old ones, minus the stripped ones -/
+theorem nextLines_plain (R : List Str) (st : Nat) (same : Bool) (H : Hdrs)
+    (hst : Gen.Redirect.methodRewriteStatuses.contains st = false) :
+    nextLines R st same H = if same then H.items else H.items.filter (fun l => !R.contains (lower l.1)) := by
+  unfold nextLines
+  simp only [hst, Bool.false_eq_true, if_false]
+
+theorem MgrNext.wf {W : World} {m : Mgr} {method url : Str} {redirect : Bool} {kw : Kw}
+    {log : List Sent} {m' u' : Str} {kw' : Kw} (N : MgrNext W m method url redirect kw log m' u' kw')
+    (hw : (kw.headers.getD m.headers).WF) : (kw'.headers.getD m.headers).WF := by
+  obtain ⟨X, _, hX, hk⟩ := N.next_headers hw
+  rw [hk]
+  simp only [Option.getD_some]
+  split
+  · exact hX
+  · exact strip_wf _ _ hX
+
+/-- the lines of the follow-up request of a `PoolManager` (no proxy) -/
+theorem MgrNext.lines_noproxy {W : World} {m : Mgr} {method url : Str} {redirect : Bool} {kw : Kw}
+    {log : List Sent} {m' u' : Str} {kw' : Kw} (N : MgrNext W m method url redirect kw log m' u' kw')
+    (hp : m.proxy = none) (hw : (kw.headers.getD m.headers).WF) {b : Sent} (hb : MgrPass W m m' u' kw' b) :
+    N.s.headers = (kw.headers.getD m.headers).items ∧
+    b.headers = nextLines (deriveRetry kw.retries redirect .none).removeHeadersOnRedirect N.s.reply.status
+      N.same (kw.headers.getD m.headers) := by
+  have ha := N.pass.headers_noproxy hp hw
+  refine ⟨ha, ?_⟩
+  rw [hb.headers_noproxy hp (N.wf hw)]
+  obtain ⟨X, hXdef, hX, hk⟩ := N.next_headers hw
+  rw [hk]
+  simp only [Option.getD_some]
+  rw [mgrHeaders_noproxy m N.u kw hp] at hXdef
+  unfold nextLines
+  dsimp only
+  rw [← hXdef]
+  split
+  · rfl
+  · exact strip_items _ _ hX
+
+end U3.Manager
+
+namespace U3.Manager
+open U3 U3.Headers U3.Retry
+
+/-! ## hop-by-hop header facts: manager level -/
+
+/-- `b`'s header lines are what one redirect decision makes of `a`'s -/
+def LinesStep (R : List Str) (a b : Sent) : Prop :=
+  ∃ H same, Hdrs.WF H ∧ a.headers = H.items ∧ b.headers = nextLines R a.reply.status same H
+
+theorem mgr_lines (W : World) (m : Mgr) (redirect : Bool) (R : List Str) (hR : R.map lower = R)
+    (hp : m.proxy = none) :
+    ∀ (fuel : Nat) (method url : Str) (kw : Kw), HdrInv m redirect R kw →
+      Chain2 (LinesStep R) (mgrUrlopen W m fuel method url redirect kw).log := by
+  apply mgr_chain W m redirect (fun _ _ kw => HdrInv m redirect R kw) (LinesStep R)
+  · intro method url kw log m' u' kw' hi N; exact N.hdrInv hR hi
+  · intro method url kw log m' u' kw' N b hi hpb
+    obtain ⟨h1, h2⟩ := N.lines_noproxy hp hi.1 hpb
+    rw [hi.2] at h2
+    exact ⟨_, N.same, hi.1, h1, h2⟩
+
+/-- after a 303 the follow-up has no content-specific header of the caller's (only what the proxy
+machinery injects could be one) -/
+theorem mgr_303_headers (W : World) (m : Mgr) (redirect : Bool) :
+    ∀ (fuel : Nat) (method url : Str) (kw : Kw), (kw.headers.getD m.headers).WF →
+      Chain2 (fun a b => Gen.Redirect.methodRewriteStatuses.contains a.reply.status = true →
+        ∀ l ∈ b.headers, lower l.1 ∈ contentSpecific.map lower → l.1 ∈ injected m)
+        (mgrUrlopen W m fuel method url redirect kw).log := by
+  apply mgr_chain W m redirect (fun _ _ kw => (kw.headers.getD m.headers).WF)
+  · intro method url kw log m' u' kw' hi N; exact N.wf hi
+  · intro method url kw log m' u' kw' N b hi hpb hst l hl hcs
+    rcases hpb.headers (N.wf hi) l hl with h1 | h1
+    · exact absurd hcs ((N.next_keys hi l.1 h1).2.2 hst)
+    · exact h1
+
+/-! ## hop-by-hop header facts: pool level -/
+
+theorem pool_head_attempt (W : World) (p : Pool) (fuel : Nat) (method url : Str) (body : Option Bytes)
+    (headers : Option Hdrs) (retries : Arg) (redirect ash : Bool) (s : Sent)
+    (h : (poolUrlopen W p fuel method url body headers retries redirect ash).log.head? = some s) :
+    ∃ r hs, poolAttempt W p method url body headers retries redirect ash = .ok (s, r, hs) := by
+  cases fuel with
+  | zero => simp [poolUrlopen] at h
+  | succ n =>
+    simp only [poolUrlopen] at h
+    split at h
+    · rename_i R hR
+      rcases poolStep_done_shape hR with ⟨o, _, hRo⟩ | ⟨s', hs', hpa, hl, _⟩
+      · rw [hRo] at h; cases h
+      · rw [hl] at h; simp at h; subst h; exact ⟨_, _, hpa⟩
+    · rename_i s0 m' u' b' h' r' hstep
+      obtain ⟨hs, hpa, _⟩ := poolStep_next hstep
+      simp at h; subst h
+      exact ⟨_, _, hpa⟩
+
+theorem pool_chain_gen (W : World) (p : Pool) (redirect ash : Bool) (I : Option Hdrs → Prop)
+    (P : Sent → Sent → Prop)
+    (hI : ∀ {method url body headers retries s m' u' b' h' r'}, I headers →
+      poolStep W p method url body headers retries redirect ash = .next s m' u' b' h' r' → I (some h'))
+    (hP : ∀ {method url body headers retries s m' u' b' h' r'} (b : Sent) (rb : Retry) (hsb : Hdrs),
+      I headers → poolStep W p method url body headers retries redirect ash = .next s m' u' b' h' r' →
+      poolAttempt W p m' u' b' (some h') (.retry r') redirect ash = .ok (b, rb, hsb) → P s b) :
+    ∀ (fuel : Nat) (method url : Str) (body : Option Bytes) (headers : Option Hdrs) (retries : Arg),
+      I headers → Chain2 P (poolUrlopen W p fuel method url body headers retries redirect ash).log := by
+  intro fuel
+  induction fuel with
+  | zero => intros; simp [poolUrlopen, Chain2]
+  | succ n ih =>
+    intro method url body headers retries hi
+    simp only [poolUrlopen]
+    split
+    · rename_i R hR
+      have := poolStep_done_len hR
+      match hl : R.log with
+      | [] => trivial
+      | [_] => trivial
+      | _ :: _ :: _ => rw [hl] at this; simp at this
+    · rename_i s m' u' b' h' r' hstep
+      simp only [Run.cons_log]
+      refine Chain2.cons_of_head (ih m' u' b' (some h') (.retry r') (hI hi hstep)) ?_
+      intro s' hs'
+      obtain ⟨rb, hsb, hpb⟩ := pool_head_attempt W p n m' u' b' (some h') (.retry r') redirect ash s' hs'
+      exact hP s' rb hsb hi hstep hpb
+
+theorem pool_next_wf {W : World} {p : Pool} {method url : Str} {body : Option Bytes}
+    {headers : Option Hdrs} {retries : Arg} {redirect ash : Bool} {s : Sent} {m' u' : Str}
+    {b' : Option Bytes} {h' : Hdrs} {r' : Retry}
+    (hw : (headers.getD p.headers).WF)
+    (h : poolStep W p method url body headers retries redirect ash = .next s m' u' b' h' r') :
+    ∃ pu, W.parse url = some pu ∧ (poolMerge p pu.scheme (headers.getD p.headers)).WF ∧
+      s.headers = (poolMerge p pu.scheme (headers.getD p.headers)).items ∧
+      h' = (if Gen.Redirect.methodRewriteStatuses.contains s.reply.status
+        then methodChange (poolMerge p pu.scheme (headers.getD p.headers))
+        else poolMerge p pu.scheme (headers.getD p.headers)) ∧ h'.WF := by
+  obtain ⟨hs, hpa, _, _, hrw, _⟩ := poolStep_next h
+  obtain ⟨pu, hpu, hhs, _, hitems, _⟩ := poolAttempt_ok' hpa
+  have hwm := poolMerge_wf p pu.scheme _ hw
+  have hh' : h' = (rewrite303 s.reply.status method body hs).2.2 := by rw [← hrw]
+  rw [rewrite303_hdrs, hhs] at hh'
+  refine ⟨pu, hpu, hwm, by rw [hitems, hhs], hh', ?_⟩
+  rw [hh']
+  split
+  · exact methodChange_wf _ hwm
+  · exact hwm
+
+theorem pool_lines (W : World) (p : Pool) (redirect ash : Bool) (hp : p.proxy = none) :
+    ∀ (fuel : Nat) (method url : Str) (body : Option Bytes) (headers : Option Hdrs) (retries : Arg),
+      (headers.getD p.headers).WF →
+      Chain2 (LinesStep []) (poolUrlopen W p fuel method url body headers retries redirect ash).log := by
+  apply pool_chain_gen W p redirect ash (fun headers => (headers.getD p.headers).WF) (LinesStep [])
+  · intro method url body headers retries s m' u' b' h' r' hi hstep
+    obtain ⟨_, _, _, _, _, hw'⟩ := pool_next_wf hi hstep
+    exact hw'
+  · intro method url body headers retries s m' u' b' h' r' b rb hsb hi hstep hpb
+    obtain ⟨pu, _, _, hitems, hh', hw'⟩ := pool_next_wf hi hstep
+    rw [poolMerge_noproxy p pu.scheme _ hp hi] at hitems hh'
+    obtain ⟨pub, _, hhsb, _, hitb, _⟩ := poolAttempt_ok' hpb
+    simp only [Option.getD_some] at hhsb
+    rw [poolMerge_noproxy p pub.scheme _ hp hw'] at hhsb
+    refine ⟨_, true, hi, hitems, ?_⟩
+    rw [hitb, hhsb, hh']
+    rfl
+
+/-- the names a pool's proxy merge adds -/
+def poolInjected (p : Pool) : List Str :=
+  match p.proxy with
+  | none => []
+  | some px => px.headers.map (·.1)
+
+theorem pool_303_headers (W : World) (p : Pool) (redirect ash : Bool) :
+    ∀ (fuel : Nat) (method url : Str) (body : Option Bytes) (headers : Option Hdrs) (retries : Arg),
+      (headers.getD p.headers).WF →
+      Chain2 (fun a b => Gen.Redirect.methodRewriteStatuses.contains a.reply.status = true →
+        ∀ l ∈ b.headers, lower l.1 ∈ contentSpecific.map lower → l.1 ∈ poolInjected p)
+        (poolUrlopen W p fuel method url body headers retries redirect ash).log := by
+  apply pool_chain_gen W p redirect ash (fun headers => (headers.getD p.headers).WF)
+  · intro method url body headers retries s m' u' b' h' r' hi hstep
+    obtain ⟨_, _, _, _, _, hw'⟩ := pool_next_wf hi hstep
+    exact hw'
+  · intro method url body headers retries s m' u' b' h' r' b rb hsb hi hstep hpb hst l hl hcs
+    obtain ⟨pu, _, hwm, _, hh', hw'⟩ := pool_next_wf hi hstep
+    obtain ⟨pub, _, hhsb, _, hitb, _⟩ := poolAttempt_ok' hpb
+    simp only [Option.getD_some] at hhsb
+    rw [hitb] at hl
+    have hk := hsb.items_names l hl
+    rw [hhsb] at hk
+    rcases poolMerge_keys p pub.scheme h' hw' l.1 hk with h1 | ⟨px, hpx, h1⟩
+    · rw [hh', if_pos hst] at h1
+      exact absurd hcs (methodChange_keys _ hwm l.1 h1).2
+    · simp [poolInjected, hpx, h1]
+
+/-! ## one user call -/
+
+/-- what the machinery of the client itself may add to a request -/
+def Client.injected : Client → List Str
+  | .manager m => Manager.injected m
+  | .pool p => poolInjected p
+
+def Client.noProxy : Client → Prop
+  | .manager m => m.proxy = none
+  | .pool p => p.proxy = none
+
+/-- the strip set that applies to the client's redirects: a bare pool strips nothing -/
+def stripSet (c : Client) (req : Req) : List Str :=
+  match c with
+  | .manager _ => (effective c req).removeHeadersOnRedirect
+  | .pool _ => []
+
+theorem run_303_headers (W : World) (c : Client) (fuel : Nat) (req : Req) (hwf : CarriersWF c req) :
+    Chain2 (fun a b => Gen.Redirect.methodRewriteStatuses.contains a.reply.status = true →
+        ∀ l ∈ b.headers, lower l.1 ∈ contentSpecific.map lower → l.1 ∈ c.injected)
+      (run W c fuel req).log := by
+  cases c with
+  | manager m =>
+    rw [run_manager]
+    exact mgr_303_headers W m _ fuel _ _ _ (requestWrap_wf (.manager m) req hwf)
+  | pool p =>
+    rw [run_pool]
+    exact pool_303_headers W p _ _ fuel _ _ _ _ _ (requestWrap_wf (.pool p) req hwf)
+
+theorem run_lines (W : World) (c : Client) (fuel : Nat) (req : Req) (hwf : CarriersWF c req)
+    (hp : c.noProxy)
+    (hlow : (stripSet c req).map lower = stripSet c req) :
+    Chain2 (LinesStep (stripSet c req)) (run W c fuel req).log := by
+  cases c with
+  | manager m =>
+    rw [run_manager]
+    exact mgr_lines W m _ _ hlow hp fuel _ _ _ ⟨requestWrap_wf (.manager m) req hwf, rfl⟩
+  | pool p =>
+    rw [run_pool]
+    exact pool_lines W p _ _ hp fuel _ _ _ _ _ (requestWrap_wf (.pool p) req hwf)
+
+end U3.Manager
+
+namespace U3.Manager
+open U3 U3.Headers U3.Retry
+
+/-! ## the asserting pool: how a cross-host redirect ends -/
+
+theorem poolStep_done_followable {W : World} {p : Pool} {method url : Str} {body : Option Bytes}
+    {headers : Option Hdrs} {retries : Arg} {ash : Bool} {R : Run} {s : Sent} {r : Retry} {hs : Hdrs}
+    {loc : Str}
+    (h : poolStep W p method url body headers retries true ash = .done R)
+    (hpa : poolAttempt W p method url body headers retries true ash = .ok (s, r, hs))
+    (hloc : s.reply.redirectLocation = some loc) :
+    R.outcome = .maxRetry ∨ R.outcome = .response s.reply := by
+  unfold poolStep at h
+  rw [hpa] at h
+  simp only [if_true, hloc] at h
+  split at h
+  · injection h with h; subst h
+    unfold onExhausted; split
+    · exact Or.inl rfl
+    · exact Or.inr rfl
+  · injection h with h; subst h
+    rename_i e hinc
+    obtain ⟨c, hc⟩ := increment_redirect_err hinc
+    cases hc
+  · cases h
+
+/-- a run of an asserting pool whose last request was answered by a redirect to another host ends in
+`HostChangedError` — unless the redirect budget was exhausted right there (`MaxRetryError`, or the 3xx
+itself with `raise_on_redirect=False`) or the model's fuel ran out -/
+theorem pool_refuses_redirect (W : World) (p : Pool) :
+    ∀ (fuel : Nat) (method url : Str) (body : Option Bytes) (headers : Option Hdrs) (retries : Arg),
+      ((poolUrlopen W p fuel method url body headers retries true true).log = [] →
+        (poolUrlopen W p fuel method url body headers retries true true).outcome = .outOfFuel ∨
+        W.parse url = none ∨
+        (poolUrlopen W p fuel method url body headers retries true true).outcome = .hostChanged) ∧
+      (∀ pre a loc pu, (poolUrlopen W p fuel method url body headers retries true true).log = pre ++ [a] →
+        a.reply.redirectLocation = some loc → W.parse loc = some pu → isSameHost p.id loc pu = false →
+        (poolUrlopen W p fuel method url body headers retries true true).outcome = .hostChanged ∨
+        (poolUrlopen W p fuel method url body headers retries true true).outcome = .outOfFuel ∨
+        (poolUrlopen W p fuel method url body headers retries true true).outcome = .maxRetry ∨
+        (poolUrlopen W p fuel method url body headers retries true true).outcome = .response a.reply) := by
+  apply pool_induct W p true true (fun _ url _ _ _ R =>
+    (R.log = [] → R.outcome = .outOfFuel ∨ W.parse url = none ∨ R.outcome = .hostChanged) ∧
+    (∀ (pre : List Sent) (a : Sent) (loc : Str) (pu : PUrl), R.log = pre ++ [a] →
+      a.reply.redirectLocation = some loc → W.parse loc = some pu →
+      isSameHost p.id loc pu = false →
+      R.outcome = .hostChanged ∨ R.outcome = .outOfFuel ∨ R.outcome = .maxRetry ∨ R.outcome = .response a.reply))
+  · intro _ _ _ _ _
+    exact ⟨fun _ => Or.inl rfl, fun pre a _ _ hl => by simp at hl⟩
+  · intro method url body headers retries R hR
+    rcases poolStep_done_shape hR with ⟨o, ho, hRo⟩ | ⟨s, hs, hpa, hl, _⟩
+    · subst hRo
+      refine ⟨fun _ => ?_, fun pre a _ _ hl => by simp at hl⟩
+      rcases poolAttempt_error ho with h | h
+      · exact Or.inr (Or.inl h.2)
+      · exact Or.inr (Or.inr h.1)
+    · refine ⟨fun h => (by rw [hl] at h; cases h), ?_⟩
+      intro pre a loc pu hpre hloc _ _
+      rw [hl] at hpre
+      have ha : a = s := by
+        cases pre with
+        | nil => simp at hpre; exact hpre.symm
+        | cons x t =>
+          simp only [List.cons_append, List.cons.injEq] at hpre
+          have := hpre.2
+          cases t <;> simp at this
+      subst ha
+      rcases poolStep_done_followable hR hpa hloc with h | h
+      · exact Or.inr (Or.inr (Or.inl h))
+      · exact Or.inr (Or.inr (Or.inr h))
+  · intro method url body headers retries s m' u' b' h' r' R' hstep ih
+    obtain ⟨hs, hpa, _, hlocs, _, _⟩ := poolStep_next hstep
+    refine ⟨fun h => by simp at h, ?_⟩
+    intro pre a loc pu hpre hloc hpu hsame
+    simp only [Run.cons_log] at hpre
+    simp only [Run.cons_outcome]
+    cases pre with
+    | nil =>
+      simp only [List.nil_append, List.cons.injEq] at hpre
+      obtain ⟨hsa, hnil⟩ := hpre
+      subst hsa
+      rw [hlocs] at hloc
+      injection hloc with hloc
+      subst hloc
+      rcases ih.1 hnil with h | h | h
+      · exact Or.inr (Or.inl h)
+      · rw [hpu] at h; cases h
+      · exact Or.inl h
+    | cons x t =>
+      simp only [List.cons_append, List.cons.injEq] at hpre
+      exact ih.2 t a loc pu hpre.2 hloc hpu hsame
+
+end U3.Manager
